@@ -340,7 +340,7 @@ func (c *Ctx) trustedThroughCallers(o *Obligation, keys []string) bool {
 	for _, k := range keys {
 		found := -1
 		for i, t := range c.trusted {
-			if ruleFamily(t.Rule) == ruleFamily(o.Rule) && t.Key == k && len(t.Premises) == 0 {
+			if ruleFamily(t.Rule) == ruleFamily(o.Rule) && t.Key == k && c.premisesHold(t) {
 				found = i
 			}
 		}
@@ -619,4 +619,29 @@ func setInlinePolicy() {
 		}
 		return !base[funcName(f)]
 	}
+}
+
+// premisesHold: the entry has no premises, or only "rule:<name>" premises each of which has run in this check and
+// discharged all its obligations (premises about the site's own quantities cannot be re-proved in another function).
+func (c *Ctx) premisesHold(t TrustedSite) bool {
+	for _, pr := range t.Premises {
+		if !strings.HasPrefix(pr, "rule:") {
+			return false
+		}
+		name := strings.TrimPrefix(pr, "rule:")
+		n := 0
+		for _, x := range c.Obls {
+			if x.Rule != name {
+				continue
+			}
+			n++
+			if x.Verdict != Discharged && x.Verdict != Info {
+				return false
+			}
+		}
+		if n == 0 {
+			return false
+		}
+	}
+	return true
 }
